@@ -396,7 +396,7 @@ impl Check for BuildCheck {
 		// ---- C20: definitional engines inside the wide / single precision builds
 		if self.id == "C20" {
 			let inner: Vec<(&str, Vec<&str>)> = vec![
-				("period_type_u16", vec!["C01", "C02", "C04", "C14"]),
+				("period_type_u16", vec!["C01", "C02", "C04", "C14", "C13"]),
 				("value_type_f32", vec!["C01", "C02", "C03", "C04", "C14", "C05", "C06", "C15"]),
 			];
 			for (set, checks) in inner {
